@@ -50,7 +50,7 @@ typedef int (*wflush_fn)(void *mgr, void **ctx_out);
 struct algo_ops {
         const char *name;
         size_t ctx_size, mgr_size, bsize;
-        int nwords, wordbytes;
+        int nwords, wordbytes, totalbytes;
         size_t o_digest, o_status, o_error, o_total, o_inc, o_inclen, o_pbuf, o_plen, o_udata, o_judata,
                 o_jbuf, o_jlen, o_jstatus, o_inuse;
         winit_fn winit;
@@ -74,6 +74,7 @@ ALGO_DECL(sm3, SM3)
 #define ALGO_OPS(lc, UC)                                                                            \
         { #lc, sizeof(ISAL_##UC##_HASH_CTX), sizeof(ISAL_##UC##_HASH_CTX_MGR), ISAL_##UC##_BLOCK_SIZE, \
           ISAL_##UC##_DIGEST_NWORDS, sizeof(((ISAL_##UC##_HASH_CTX *) 0)->job.result_digest[0]),     \
+          sizeof(((ISAL_##UC##_HASH_CTX *) 0)->total_length),                                       \
           offsetof(ISAL_##UC##_HASH_CTX, job.result_digest), offsetof(ISAL_##UC##_HASH_CTX, status), \
           offsetof(ISAL_##UC##_HASH_CTX, error), offsetof(ISAL_##UC##_HASH_CTX, total_length),       \
           offsetof(ISAL_##UC##_HASH_CTX, incoming_buffer),                                          \
@@ -175,7 +176,7 @@ check_stream(const uint8_t *p, size_t n, uint64_t seed)
 }
 
 /* ---- buffers: own guard-page arena (common.h's holds 256 mappings only) ---- */
-struct ubuf { uint8_t *map; size_t maplen; uint8_t *p; size_t n; uint64_t seed; };
+struct ubuf { uint8_t *map; size_t maplen; uint8_t *p; size_t n; uint64_t seed; int dead; };
 static struct ubuf *ubufs;
 static int n_ubufs, cap_ubufs;
 static uint8_t *
@@ -197,8 +198,20 @@ ubuf_new(size_t n, const char *place, uint64_t seed)
                 cap_ubufs = cap_ubufs ? 2 * cap_ubufs : 256;
                 ubufs = realloc(ubufs, cap_ubufs * sizeof *ubufs);
         }
-        ubufs[n_ubufs++] = (struct ubuf){ m, body + 2 * pg, p, n, seed };
+        ubufs[n_ubufs++] = (struct ubuf){ m, body + 2 * pg, p, n, seed, 0 };
         return p;
+}
+/* The caller may reuse or free a buffer as soon as its context has been handed back: from
+   then on the buffer is inaccessible (after a last check that it was not modified), so a
+   lane that still reads through a stale pointer faults. */
+static int modbuf_early;
+static void
+ubuf_release(int i)
+{
+        if (i < 0 || i >= n_ubufs || ubufs[i].dead) return;
+        if (check_stream(ubufs[i].p, ubufs[i].n, ubufs[i].seed)) modbuf_early++;
+        mprotect(ubufs[i].map, ubufs[i].maplen, PROT_NONE);
+        ubufs[i].dead = 1;
 }
 static void
 ubuf_reset(void)
@@ -217,6 +230,7 @@ static int wrapper_mode, nctx;
 static uint8_t *mgr, *ctxs, *snap_mgr, *snap_ctxs;
 static void *mgr_map, *ctx_map;
 static size_t mgr_maplen, ctx_maplen;
+static int cur_buf[MAXCTX]; /* buffer of the submission a context is in flight with, or -1 */
 static struct opq *queue[MAXCTX];
 static int q_head[MAXCTX], q_tail[MAXCTX], q_cap[MAXCTX];
 /* last printed white-box record of each context */
@@ -227,6 +241,9 @@ static uint8_t *bigbuf;
 #define CTX(i) (ctxs + (size_t) (i) * AO->ctx_size)
 #define FLD32(p, off) (*(uint32_t *) ((uint8_t *) (p) + (off)))
 #define FLD64(p, off) (*(uint64_t *) ((uint8_t *) (p) + (off)))
+/* total_length, read and written with the width the header gives it */
+#define GET_TOTAL(p) (AO->totalbytes == 8 ? FLD64(p, AO->o_total) : (uint64_t) FLD32(p, AO->o_total))
+#define SET_TOTAL(p, v) do { if (AO->totalbytes == 8) FLD64(p, AO->o_total) = (v); else FLD32(p, AO->o_total) = (uint32_t) (v); } while (0)
 
 static int
 ctx_index(void *p)
@@ -262,7 +279,7 @@ wb_record(int i)
         const uint8_t *c = CTX(i);
         uint32_t st = FLD32(c, AO->o_status), plen = FLD32(c, AO->o_plen);
         char *p = buf;
-        p += sprintf(p, "%x:%u:%llx:%u:", st, err_code(FLD32(c, AO->o_error)), (unsigned long long) FLD64(c, AO->o_total), plen);
+        p += sprintf(p, "%x:%u:%llx:%u:", st, err_code(FLD32(c, AO->o_error)), (unsigned long long) GET_TOTAL(c), plen);
         if (st & ISAL_HASH_CTX_STS_PROCESSING) p += sprintf(p, "%u:", FLD32(c, AO->o_inclen));
         else p += sprintf(p, "-:");
         for (int w = 0; w < AO->nwords; w++) {
@@ -329,7 +346,7 @@ print_diff(int own)
                 CH(AO->o_digest, (size_t) AO->nwords * AO->wordbytes, 1);
                 CH(AO->o_status, 4, 2);
                 CH(AO->o_error, 4, 4);
-                CH(AO->o_total, 8, 8);
+                CH(AO->o_total, (size_t) AO->totalbytes, 8);
                 CH(AO->o_inc, 8, 16);
                 CH(AO->o_inclen, 4, 16);
                 CH(AO->o_pbuf, 2 * AO->bsize, 32);
@@ -357,7 +374,7 @@ print_obs(void *ret, int rc, int have_rc)
         if (r >= 0) {
                 const uint8_t *c = CTX(r);
                 printf(" st=%x er=%u tl=%llx dg=", FLD32(c, AO->o_status), err_code(FLD32(c, AO->o_error)),
-                       (unsigned long long) FLD64(c, AO->o_total));
+                       (unsigned long long) GET_TOTAL(c));
                 put_digest(stdout, c);
         }
 }
@@ -378,8 +395,20 @@ do_submit(int c, int flags, uint32_t len, const char *place, uint64_t seed)
         fflush(stdout);
         snapshot();
         mlog_n = mlog_over = 0;
+        int mybuf = n_ubufs - 1;
         if (wrapper_mode) rc = AO->wsubmit(mgr, CTX(c), &ret, buf, len, flags);
         else ret = FE->submit(mgr, CTX(c), buf, len, flags);
+        {
+                int r = ctx_index(ret);
+                if (r == c) {
+                        /* handed straight back: rejected, or accepted and already idle/complete */
+                        ubuf_release(mybuf);
+                        if (!processing(c)) { ubuf_release(cur_buf[c]); cur_buf[c] = -1; }
+                } else {
+                        cur_buf[c] = mybuf;
+                        if (r >= 0) { ubuf_release(cur_buf[r]); cur_buf[r] = -1; }
+                }
+        }
         print_obs(ret, rc, wrapper_mode);
         print_mlog();
         print_diff(c);
@@ -400,6 +429,10 @@ do_flush(void)
         if (wrapper_mode) rc = AO->wflush(mgr, &ret);
         else ret = FE->flush(mgr);
         last_flush_null = ret == NULL;
+        {
+                int r = ctx_index(ret);
+                if (r >= 0) { ubuf_release(cur_buf[r]); cur_buf[r] = -1; }
+        }
         print_obs(ret, rc, wrapper_mode);
         print_mlog();
         print_diff(-1);
@@ -458,7 +491,7 @@ do_inject(int c, uint64_t total, uint32_t plen, uint64_t seed)
         memcpy(p + AO->o_digest, tmp, (size_t) AO->nwords * AO->wordbytes);
         memcpy(p + AO->o_pbuf, tmp + (size_t) AO->nwords * AO->wordbytes, plen);
         FLD32(p, AO->o_plen) = plen;
-        FLD64(p, AO->o_total) = total;
+        SET_TOTAL(p, total);
         FLD32(p, AO->o_status) = ISAL_HASH_CTX_STS_IDLE;
         FLD32(p, AO->o_error) = ISAL_HASH_CTX_ERROR_NONE;
         printf(" done");
@@ -626,7 +659,8 @@ run_case(char **tok, int nt)
         } else {
                 FE->init(mgr);
         }
-        for (int i = 0; i < nctx; i++) ctx_fresh(i);
+        for (int i = 0; i < nctx; i++) { ctx_fresh(i); cur_buf[i] = -1; }
+        modbuf_early = 0;
         printf(" mode=%s", wrapper_mode ? "wrapper" : "direct");
         for (int i = 0; i < nctx; i++) { free(wb_last[i]); wb_last[i] = strdup(wb_record(i)); }
 
@@ -697,9 +731,9 @@ run_case(char **tok, int nt)
         setitimer(ITIMER_REAL, &off, NULL);
 
         /* caller-owned data must be untouched: buffers, user_data */
-        int modbuf = 0, modud = 0;
+        int modbuf = modbuf_early, modud = 0;
         for (int i = 0; i < n_ubufs; i++)
-                if (check_stream(ubufs[i].p, ubufs[i].n, ubufs[i].seed)) modbuf++;
+                if (!ubufs[i].dead && check_stream(ubufs[i].p, ubufs[i].n, ubufs[i].seed)) modbuf++;
         for (int i = 0; i < nctx; i++)
                 if (FLD64(CTX(i), AO->o_udata) != 0xC0DE000000000000ull + (unsigned) i) modud++;
         printf(" | end ub=%d ud=%d", modbuf, modud);
